@@ -105,6 +105,18 @@ func c06Cases() []c06Case {
 		c06Case{"slot-forwarded-through-three-includes", map[string]string{"p.vuego": `<template include="panel.vuego"><p>BODY</p></template>`,
 			"panel.vuego": `<template include="card.vuego"><template include="box.vuego"><template include="card.vuego"><slot>PANEL-FB</slot></template></template></template>`,
 			"card.vuego": `<div class="card"><slot>CARD-FB</slot></div>`, "box.vuego": `<div class="box"><slot>BOX-FB</slot></div>`}, d, "BODY"},
+		// a <slot> that is itself a member of a v-if chain: it is a slot when the chain selects it (supplied content, else fallback) and nothing otherwise
+		c06Case{"slot-vif-false-supplied", map[string]string{"p.vuego": `<template include="c.vuego"><b>S-{{ name }}</b></template>`, "c.vuego": `<div>[<slot v-if="nope">FB</slot>]</div>`}, d, "[]"},
+		c06Case{"slot-vif-false-unsupplied", map[string]string{"p.vuego": `<template include="c.vuego"></template>`, "c.vuego": `<div>[<slot v-if="nope">FB</slot>]</div>`}, d, "[]"},
+		c06Case{"slot-vif-true-supplied", map[string]string{"p.vuego": `<template include="c.vuego"><b>S-{{ name }}</b></template>`, "c.vuego": `<div>[<slot v-if="n">FB</slot><u v-else>E</u>]</div>`}, d, "[S-NAME]"},
+		c06Case{"slot-vif-true-unsupplied", map[string]string{"p.vuego": `<template include="c.vuego"></template>`, "c.vuego": `<div>[<slot v-if="n">FB</slot><u v-else>E</u>]</div>`}, d, "[FB]"},
+		c06Case{"slot-velse-supplied", map[string]string{"p.vuego": `<template include="c.vuego"><b>S-{{ name }}</b></template>`, "c.vuego": `<div>[<i v-if="nope">n</i><slot v-else>FB</slot>]</div>`}, d, "[S-NAME]"},
+		c06Case{"slot-velse-unsupplied", map[string]string{"p.vuego": `<template include="c.vuego"></template>`, "c.vuego": `<div>[<i v-if="nope">n</i><slot v-else>FB</slot>]</div>`}, d, "[FB]"},
+		c06Case{"slot-velse-not-reached", map[string]string{"p.vuego": `<template include="c.vuego"><b>S</b></template>`, "c.vuego": `<div>[<i v-if="n">y</i><slot v-else>FB</slot>]</div>`}, d, "[y]"},
+		c06Case{"named-slot-velseif-supplied", map[string]string{"p.vuego": `<template include="c.vuego"><template #x>X-{{ name }}</template><b>D</b></template>`, "c.vuego": `<div>[<i v-if="nope">n</i><slot v-else-if="n" name="x">FBX</slot><u v-else>E</u>|<slot>FB</slot>]</div>`}, d, "[X-NAME|D]"},
+		c06Case{"named-slot-velseif-false", map[string]string{"p.vuego": `<template include="c.vuego"><template #x>X-{{ name }}</template><b>D</b></template>`, "c.vuego": `<div>[<i v-if="nope">n</i><slot v-else-if="nope" name="x">FBX</slot><u v-else>E</u>|<slot>FB</slot>]</div>`}, d, "[E|D]"},
+		c06Case{"scoped-slot-vif-in-loop", map[string]string{"p.vuego": `<template include="c.vuego"><template #row="p">({{ p.item }})</template></template>`, "c.vuego": `<ul><li v-for="it in items"><slot v-if="it != 'b'" name="row" :item="it">FB</slot><u v-else>skip</u></li></ul>`}, map[string]any{"items": []any{"a", "b", "c"}}, "(a)skip(c)"},
+		c06Case{"slot-velse-after-empty-loop", map[string]string{"p.vuego": `<template include="c.vuego"><b>S</b></template>`, "c.vuego": `<div>[<i v-for="q in nothing">q</i><slot v-else>FB</slot>]</div>`}, d, "[S]"},
 		// nested instance with nothing supplied keeps its own fallback although the outer instance was given content for the same slot name
 		c06Case{"nested-unsupplied-keeps-fallback", map[string]string{"p.vuego": `<template include="panel.vuego"><i>hello</i></template>`,
 			"panel.vuego": `<div><template include="badge.vuego"></template><slot>PANEL-FB</slot></div>`, "badge.vuego": `<span><slot>new</slot></span>`}, d, "newhello"},
@@ -127,6 +139,9 @@ func c06Generated() []c06Case {
 		{`<div><p><slot name="row" :item="'L'"></slot></p><q><slot name="row" :item="'R'"></slot></q></div>`, []string{"L", "R"}},
 		{`<ul><li v-for="it in items"><slot name="row" :item="it"></slot></li></ul>`, []string{"a", "b", "c"}},
 		{`<ul><li v-for="it in items"><slot name="row" :item="it"></slot></li><li><slot name="row" :item="name"></slot></li></ul>`, []string{"a", "b", "c", "NAME"}},
+		// the <slot> element itself carries the v-for: one use per item
+		{`<ul><slot v-for="it in items" name="row" :item="it"></slot></ul>`, []string{"a", "b", "c"}},
+		{`<ul><slot v-for="(i, it) in items" name="row" :item="it"></slot><slot name="row" :item="n"></slot></ul>`, []string{"a", "b", "c", "7"}},
 	}
 	type content struct {
 		name string
